@@ -20,6 +20,8 @@ use std::thread::{self, JoinHandle, Thread};
 use std::time::Duration;
 
 const MAIN: usize = usize::MAX;
+/// Baton value while an exited simulated thread is being torn down (see `finish`).
+const REAPER: usize = usize::MAX - 2;
 pub const N_SITES: usize = a5::verif::site::COUNT as usize;
 
 #[derive(Clone, Debug, Serialize, Deserialize, PartialEq)]
@@ -73,6 +75,9 @@ pub struct RunStats {
     /// scenarios run in a process whose /dev/shm, /var/tmp (and /tmp) are private bind mounts
     #[serde(default)]
     pub private_mount_scenarios: u64,
+    /// exited threads whose teardown (thread-local destructors) took more than 2 s
+    #[serde(default)]
+    pub slow_teardowns: u64,
     /// caller threads that ran restricted to 1-3 CPUs
     #[serde(default)]
     pub cpu_limited_threads: u64,
@@ -166,6 +171,8 @@ struct State {
     th: Vec<ThState>,
     ops_done: u64,
     decisions: Vec<u16>,
+    /// simulated thread whose OS thread is on its way out; main hands the baton on once it is gone
+    reap: Option<usize>,
     log: H64,
     sched: H64,
     violation: Option<Violation>,
@@ -573,14 +580,57 @@ impl Shared {
         }
     }
 
-    /// The simulated thread is done: mark it and hand the baton on.
+    /// The simulated thread is done. It does NOT hand the baton on itself: what follows in the OS
+    /// thread - the remaining thread-local destructors, the library's among them - would then run
+    /// alongside the next baton holder, outside the schedule (a pool that takes an instance back
+    /// in a thread-local `Drop` made the next thread's claim depend on real timing: benign4/2).
+    /// The baton goes to main, which waits until the kernel task is gone and only then takes the
+    /// scheduling decision on the thread's behalf.
     fn finish(self: &Arc<Self>, me: usize) {
-        {
+        if self.finished.load(Ordering::Acquire) {
+            return;
+        }
+        let mut st = self.st.lock().unwrap_or_else(|e| e.into_inner());
+        st.th[me].life = Life::Exited;
+        st.stats.thread_exit += 1;
+        st.reap = Some(me);
+        self.progress.fetch_add(1, Ordering::Relaxed);
+        self.baton.store(REAPER, Ordering::Release);
+        drop(st);
+        self.main.unpark();
+    }
+
+    /// Main's side of `finish`: true if a thread was reaped (or given up on) and the baton moved on.
+    fn reap(self: &Arc<Self>, waited_ns: i64) -> bool {
+        let (me, tid) = {
+            let st = self.st.lock().unwrap_or_else(|e| e.into_inner());
+            match st.reap {
+                Some(me) => (me, st.th[me].tid),
+                None => return false,
+            }
+        };
+        let gone = tid <= 0 || !std::path::Path::new(&format!("/proc/self/task/{}", tid)).exists();
+        // a destructor that blocks for good must not block the simulator: after 2 s the schedule
+        // goes on without the thread (as it did for every thread before this rule existed)
+        if !gone && waited_ns < 2_000_000_000 {
+            return false;
+        }
+        let handle = {
             let mut st = self.st.lock().unwrap_or_else(|e| e.into_inner());
-            st.th[me].life = Life::Exited;
-            st.stats.thread_exit += 1;
+            st.reap = None;
+            if !gone {
+                st.stats.slow_teardowns += 1;
+            }
+            st.th[me].join.take()
+        };
+        if let Some(h) = handle {
+            if gone {
+                let _ = h.join();
+            }
+            // (a handle that is dropped detaches the thread)
         }
         self.sched_point(me, Point::Exit);
+        true
     }
 }
 
@@ -915,6 +965,7 @@ pub fn run(scen: &Scenario, schedule: Schedule, tracing: bool) -> RunOut {
         th: (0..n).map(|_| ThState { life: Life::NotStarted, handle: None, join: None, view: Foot::default(), last_foot: None, blocked: false, tid: 0, current: None }).collect(),
         ops_done: 0,
         decisions: Vec::new(),
+        reap: None,
         log: H64::new(),
         sched: H64::new(),
         violation: None,
@@ -965,7 +1016,21 @@ pub fn run(scen: &Scenario, schedule: Schedule, tracing: bool) -> RunOut {
         let mut since = crate::procs::raw_now_ns();
         let mut asleep_polls = 0u32;
         let mut polls = 0u64;
+        let mut reap_since: i64 = 0;
         while sh.baton.load(Ordering::Acquire) != MAIN {
+            if sh.baton.load(Ordering::Acquire) == REAPER {
+                if reap_since == 0 {
+                    reap_since = crate::procs::raw_now_ns();
+                }
+                if sh.reap(crate::procs::raw_now_ns() - reap_since) {
+                    reap_since = 0;
+                    last = sh.progress.load(Ordering::Relaxed);
+                    since = crate::procs::raw_now_ns();
+                } else {
+                    crate::procs::raw_sleep_us(20);
+                }
+                continue;
+            }
             // (a relative sleep: timed parks use absolute deadlines that a clock jump would distort)
             crate::procs::raw_sleep_us(200);
             polls += 1;
